@@ -4,7 +4,7 @@
    successful Start holding that run's context, watcher, loop, workers and job goroutines);
    d = (BlockingExecution, WorkerLimit), any value. *)
 From Coq Require Import ZArith List Bool.
-Require Import QzLoop.Gen.Params QzLoop.LoopModel QzLoop.Retry QzLoop.Dispatch QzLoop.Lifecycle QzLoop.LifecycleProofs.
+Require Import QzLoop.Gen.Params QzLoop.LoopModel QzLoop.LoopProofs QzLoop.Restart QzLoop.RestartProofs QzLoop.Retry QzLoop.Dispatch QzLoop.Lifecycle QzLoop.LifecycleProofs.
 Import ListNotations.
 Open Scope nat_scope.
 Open Scope list_scope.
@@ -113,3 +113,13 @@ Theorem C10_ex_is_started_tracks_cancel : exists s,
   lrun (code_lcfg (mkd true 0)) linit [LStart; CtxCancel 1; WatcherWake 1] = Some s /\ l_started s = false /\ l_want s = false /\ ~ wake_pending s.
 Proof. exact ex_is_started_tracks_cancel. Qed.
 Print Assumptions C10_ex_is_started_tracks_cancel.
+
+(* restart_fires: after Stop(); Start(), with the loop of the stopped run possibly still alive, the new
+   run's loop keeps the no-lost-wake-up invariant (so C05_due_head_enables_loop's argument applies to it)
+   and the stopped run's loop never dequeues a job (Restart.v; the code before c87a9a8 is refuted in C05.v) *)
+Theorem C10_restart_fires : forall drain ri q0 tok0 o0 tr s, lpc o0 <> PFetch -> new_nofault tr ->
+  run2 (code_cfg drain ri) (stale_cfg drain ri) (init2 q0 tok0 o0) tr = Some s ->
+  (parked (nw s) -> armed (nw s) = true /\ (q (nw s) <> [] -> (dl (nw s) <= Z.max (armed_at (nw s)) (minp (q (nw s))))%Z)) /\
+  lpc (od s) <> PFetch /\ pops (od s) = pops o0.
+Proof. exact restart_fires. Qed.
+Print Assumptions C10_restart_fires.
